@@ -33,6 +33,8 @@ type TermStep struct {
 	Op   *Op `json:"op,omitempty"`   // Move == 0: an update through the current leader
 	// Move != 0: before the transfer the selected rule records are moved to legacy keys in the cluster's storage
 	Legacy Legacy `json:"legacy"`
+	// regions asked for through the HTTP API after this step
+	Regions []RegionSpec `json:"regions,omitempty"`
 }
 
 type TermsCase struct {
@@ -101,7 +103,11 @@ func genTerms(t *rapid.T) TermsCase {
 	var c TermsCase
 	n := rapid.IntRange(3, 4).Draw(t, "nPrograms")
 	for i := 0; i < n; i++ {
-		c.Programs = append(c.Programs, genProgram(t))
+		p := genProgram(t)
+		for j := range p {
+			p[j].Regions = genRegions(t)
+		}
+		c.Programs = append(c.Programs, p)
 	}
 	return c
 }
@@ -133,7 +139,7 @@ func runTerms(c TermsCase) (vkit.Info, error) {
 	}
 	terms := 0
 	// what the serving leader reports and what a fresh manager loads from the storage, against the model
-	check := func(leader *livesrv.Node, m *model, when string) (bool, error) {
+	check := func(leader *livesrv.Node, m *model, when string, regions []RegionSpec) (bool, error) {
 		rc := leader.Svr.GetRaftCluster()
 		if rc == nil || !leader.Serving() {
 			return false, nil
@@ -152,7 +158,7 @@ func runTerms(c TermsCase) (vkit.Info, error) {
 		if err := diffViews(realView(fresh), want); err != nil {
 			return true, fmt.Errorf("%s: a fresh manager loaded from the storage differs from the accepted updates (served by %s): %v", when, leader.Name, err)
 		}
-		return true, nil
+		return httpSlice(leader, m, regions, when, info.Class)
 	}
 	move := func(to *livesrv.Node) bool {
 		for try := 0; try < 5; try++ {
@@ -198,7 +204,7 @@ func runTerms(c TermsCase) (vkit.Info, error) {
 			}
 			return inconclusive("storage-error")
 		}
-		if ok, err := check(leader, m, fmt.Sprintf("program %d after the reset to the default configuration", pi)); err != nil {
+		if ok, err := check(leader, m, fmt.Sprintf("program %d after the reset to the default configuration", pi), nil); err != nil {
 			return info, err
 		} else if !ok {
 			return inconclusive("leader-lost")
@@ -232,7 +238,7 @@ func runTerms(c TermsCase) (vkit.Info, error) {
 				led[to] = true
 				acceptedElsewhere[to] = 0
 				when = fmt.Sprintf("%s (leadership %s -> %s)", when, mc.Nodes[cur].Name, leader.Name)
-				if ok, err := check(leader, m, when); err != nil {
+				if ok, err := check(leader, m, when, st.Regions); err != nil {
 					return info, err
 				} else if !ok {
 					return inconclusive("leader-lost")
@@ -287,7 +293,7 @@ func runTerms(c TermsCase) (vkit.Info, error) {
 					}
 				}
 			}
-			if ok, err := check(leader, m, "after "+when); err != nil {
+			if ok, err := check(leader, m, "after "+when, st.Regions); err != nil {
 				return info, err
 			} else if !ok {
 				return inconclusive("leader-lost")
